@@ -24,10 +24,6 @@ Theorem C20_decode_total_refuted_width : load_result E0 file_char_width = Panic 
 Proof. exact decode_total_refuted_width. Qed.
 Print Assumptions C20_decode_total_refuted_width.
 
-Theorem C20_decode_total_refuted_temporal : load_result E0 file_interval_to = Panic (PTemporal 3).
-Proof. exact decode_total_refuted_temporal. Qed.
-Print Assumptions C20_decode_total_refuted_temporal.
-
 (** every panic of the loader is one of: a temporal parser panicking on some text, or the
     CHAR/VARCHAR/NAME truncation/padding of [Table::insert] on a table that has such a column *)
 Theorem C20_load_panic_classified : forall E bs t p,
